@@ -953,25 +953,33 @@ func ruleC03Dispatch(c *Ctx, r *Rep) {
 
 func ruleC03SliceSib(c *Ctx, r *Rep) {
 	info := c.Gojq.TypesInfo
-	// in each sibling: the conversion applied under `if s != nil` (start) and `if e != nil` (end)
+	// in each sibling: the conversions applied to the start and the end bound, in source order; the three must agree with
+	// each other (no names are expected: the comparison is between today's siblings)
+	seqs := map[string][]string{}
+	decls := map[string]*ast.FuncDecl{}
 	for _, fn := range []string{"slice", "sliceString", "updateArraySlice"} {
 		fd := c.Decl(c.Gojq, fn)
 		if fd == nil {
 			r.Undecided(fn, token.NoPos, "not found")
 			continue
 		}
-		var convs []string
+		decls[fn] = fd
 		ast.Inspect(fd.Body, func(m ast.Node) bool {
 			if call, ok := m.(*ast.CallExpr); ok {
-				switch calleeName(info, call) {
-				case "gojq.toInt":
-					convs = append(convs, "toInt")
-				case "gojq.toIntCeil":
-					convs = append(convs, "toIntCeil")
+				if nm := calleeName(info, call); strings.HasPrefix(nm, "gojq.toInt") {
+					seqs[fn] = append(seqs[fn], strings.TrimPrefix(nm, "gojq."))
 				}
 			}
 			return true
 		})
-		r.Check(len(convs) == 2 && convs[0] == "toInt" && convs[1] == "toIntCeil", fn, fd.Pos(), "%s converts start/end with %v (siblings: [toInt toIntCeil]; a write path that rounds the end differently from the read path updates a different range than .[a:b] reads)", fn, convs)
+	}
+	ref := seqs["slice"]
+	for _, fn := range []string{"slice", "sliceString", "updateArraySlice"} {
+		fd := decls[fn]
+		if fd == nil {
+			continue
+		}
+		same := len(seqs[fn]) == 2 && len(ref) == 2 && seqs[fn][0] == ref[0] && seqs[fn][1] == ref[1]
+		r.Check(same, fn, fd.Pos(), "%s converts start/end with %v (sibling slice: %v; a write path that rounds a bound differently from the read path updates a different range than .[a:b] reads)", fn, seqs[fn], ref)
 	}
 }
